@@ -498,7 +498,7 @@ def witness_fails(f):
 def run(ctx):
     rng = ctx.rng("select")
     cases, chained = [], []
-    for _ in range(ctx.budget(1200, 30000)):
+    for _ in range(ctx.budget(2500, 30000)):
         numeric = rng.random() < 0.25
         odd = rng.random() < ODD_SHARE
         recs = gen_records(rng, numeric=numeric, odd=odd)
@@ -525,7 +525,7 @@ def run(ctx):
         xp = make_xp(P, form, k, f, lit(rng, vs, q))
         cases.append({"tree": tree, "mode": rng.choice(["n0", "wrap"]), "pos": pos, "form": form, "k": k, "f": f, "v": v if isinstance(v, str) else vs, "xp": xp})
     ctx.evaluate("select", cases, check_select, in_known=in_known, nontrivial=lambda c: len(X.get_at(c["tree"], c["pos"])) > 1)
-    for _ in range(ctx.budget(400, 8000)):
+    for _ in range(ctx.budget(900, 8000)):
         recs = gen_orders(rng, hidden=rng.random() < 0.5, scalar=rng.random() < 0.2) if rng.random() < 0.65 \
             else gen_records(rng, nested=True, numeric=rng.random() < 0.2)
         tree, pos = wrap_at_depth(rng, recs, rng.choice([0, 1, 2, 3]))
